@@ -373,7 +373,8 @@ Definition exec_resolve (s : st) (now : N) (inst : bytes) (try_count : N) : st *
   if sent && retry_guard try_count max_try
   then (mkSt (s_cache s) (s_q s) (s_pending s) (s_resolved s)
              (s_retrans s ++ [(now + resolve_wait, RResolve inst (retry_next try_count))]), o)
-  else (s, o).
+  else (* the follow-up queries are over: a new round may start if it shows up again *)
+       (mkSt (s_cache s) (s_q s) (set_remove inst (s_pending s)) (s_resolved s) (s_retrans s), o).
 
 Definition exec_rcmd (s : st) (now : N) (c : rcmd) : st * list out :=
   match c with
